@@ -56,8 +56,14 @@ Record ixd := mkIxd {
    non-marginfi programs have inner calls that matter: marginfi never calls itself. *)
 Record top_ix := mkTop { t_d : ixd; t_inner : list ixd }.
 
+(* list indexing by a Z (usize) index; recursion on the list so that huge indices cost nothing *)
+Fixpoint nth_zf {A} (l : list A) (i : Z) : option A :=
+  match l with
+  | [] => None
+  | x :: tl => if i =? 0 then Some x else nth_zf tl (i - 1)
+  end.
 Definition nth_z {A} (l : list A) (i : Z) : option A :=
-  if i <? 0 then None else nth_error l (Z.to_nat i).
+  if i <? 0 then None else nth_zf l i.
 
 Definition len_z {A} (l : list A) : Z := Z.of_nat (length l).
 
@@ -450,8 +456,9 @@ Definition h_bankruptcy (w : world) (a signer bank : Z) : res world :=
 (* ---- transfer_account.rs: transfer_to_new_account ---- *)
 Definition h_transfer (w : world) (old new signer new_auth : Z) : res world :=
   let* A := get_acct w old in
+  (* Anchor runs the `init` of new_marginfi_account before the constraints of the other fields *)
+  let* _ := check (match w_accts w new with None => true | Some _ => false end) (E 0) in   (* already in use *)
   let* _ := auth_checks w A signer false in
-  let* _ := check (match w_accts w new with None => true | Some _ => false end) (E 0) in   (* init: already in use *)
   let* _ := check (negb (f_fl (a_fl A))) (E E_AccountInFlashloan) in             (* transfer_account.rs:37 *)
   let* _ := check (negb (f_recv (a_fl A))) (E E_ForbiddenIx) in                  (* transfer_account.rs:42 *)
   let* _ := check (negb (a_migrated A)) (E E_AccountAlreadyMigrated) in
